@@ -242,7 +242,12 @@ pub(crate) mod inner {
             T: Default,
         {
             let mutex = self.0.get_or_init(Default::default);
-            let mut guard = mutex.write().unwrap();
+            // A panic in `f` (e.g. ICU refusing to build a formatter for the requested options)
+            // poisons the lock; the maps only ever gain fully built entries, so they are still
+            // consistent: keep serving the other formatters instead of panicking forever after.
+            let mut guard = mutex
+                .write()
+                .unwrap_or_else(std::sync::PoisonError::into_inner);
             f(&mut guard)
         }
     }
